@@ -68,6 +68,23 @@ func newWrappedSampledConn(conn ManetTCPConnInterface) (PeekedBytes, *wrappedSam
 	return s.peekedBytes, s, nil
 }
 
+// WriteTo implements io.WriterTo. Without it the embedded connection's WriteTo
+// would be promoted, and io.Copy out of this connection would bypass Read and
+// skip the peeked bytes.
+func (sc *wrappedSampledConn) WriteTo(w io.Writer) (int64, error) {
+	var total int64
+	if int(sc.bytesPeeked) != len(sc.peekedBytes) {
+		n, err := w.Write(sc.peekedBytes[sc.bytesPeeked:])
+		sc.bytesPeeked += uint8(n)
+		total += int64(n)
+		if err != nil {
+			return total, err
+		}
+	}
+	n, err := sc.ManetTCPConnInterface.WriteTo(w)
+	return total + n, err
+}
+
 func (sc *wrappedSampledConn) Read(b []byte) (int, error) {
 	if int(sc.bytesPeeked) != len(sc.peekedBytes) {
 		red := copy(b, sc.peekedBytes[sc.bytesPeeked:])
